@@ -13,32 +13,37 @@ import YaraModel.Lemmas.ReAlgebra
 namespace YaraModel.ReEmit
 open YaraModel.Re YaraModel.ReVm
 
-/-- the hex fragment: bytes, masks, negations, jumps `[n-m]`, concatenation, nested alternatives -/
-inductive HexFrag : Re → Prop
-  | lit (b) : HexFrag (.lit b)
-  | masked (v m) : HexFrag (.masked v m)
-  | notLit (b) : HexFrag (.notLit b)
-  | maskedNot (v m) : HexFrag (.maskedNot v m)
-  | any : HexFrag .any
-  | jump (lo hi : Nat) (g : Bool) : lo ≤ hi → hi < 65536 → HexFrag (.rangeAny lo hi g)
-  | wordCh : HexFrag .wordCh
-  | nonWordCh : HexFrag .nonWordCh
-  | space : HexFrag .space
-  | nonSpace : HexFrag .nonSpace
-  | digit : HexFrag .digit
-  | nonDigit : HexFrag .nonDigit
-  | bol : HexFrag .bol
-  | eol : HexFrag .eol
-  | wordB : HexFrag .wordB
-  | nonWordB : HexFrag .nonWordB
-  | cat {a b} : HexFrag a → HexFrag b → HexFrag (.cat a b)
-  | alt {a b} : HexFrag a → HexFrag b → HexFrag (.alt a b)
+/-- the fragment covered by the VM soundness proof: every node kind except character classes `[...]`, counted repeats
+    `e{n,m}` and the empty alternative — hex patterns (bytes, masks, negations, jumps, nested alternatives) entirely -/
+inductive Frag : Re → Prop
+  | lit (b) : Frag (.lit b)
+  | masked (v m) : Frag (.masked v m)
+  | notLit (b) : Frag (.notLit b)
+  | maskedNot (v m) : Frag (.maskedNot v m)
+  | any : Frag .any
+  | jump (lo hi : Nat) (g : Bool) : lo ≤ hi → hi < 65536 → Frag (.rangeAny lo hi g)
+  | wordCh : Frag .wordCh
+  | nonWordCh : Frag .nonWordCh
+  | space : Frag .space
+  | nonSpace : Frag .nonSpace
+  | digit : Frag .digit
+  | nonDigit : Frag .nonDigit
+  | bol : Frag .bol
+  | eol : Frag .eol
+  | wordB : Frag .wordB
+  | nonWordB : Frag .nonWordB
+  | star {a} (g : Bool) : Frag a → Frag (.star a g)
+  | plus {a} (g : Bool) : Frag a → Frag (.plus a g)
+  | cat {a b} : Frag a → Frag b → Frag (.cat a b)
+  | alt {a b} : Frag a → Frag b → Frag (.alt a b)
 
 /-- length of the emitted code -/
 def clen : Re → Nat
   | .lit _ => 2 | .notLit _ => 2 | .masked _ _ => 3 | .maskedNot _ _ => 3 | .any => 1 | .rangeAny _ _ _ => 5
   | .wordCh => 1 | .nonWordCh => 1 | .space => 1 | .nonSpace => 1 | .digit => 1 | .nonDigit => 1
   | .bol => 1 | .eol => 1 | .wordB => 1 | .nonWordB => 1
+  | .star a _ => 4 + clen a + 3
+  | .plus a _ => clen a + 4
   | .cat a b => clen a + clen b
   | .alt a b => 4 + clen a + 3 + clen b
   | _ => 0
@@ -64,6 +69,10 @@ inductive Seg (code : Code) : Re → Nat → Nat → Prop
   | eol {a : Nat} : u8 code a = OP_MATCH_AT_END → Seg code .eol a (a + 1)
   | wordB {a : Nat} : u8 code a = OP_WORD_BOUNDARY → Seg code .wordB a (a + 1)
   | nonWordB {a : Nat} : u8 code a = OP_NON_WORD_BOUNDARY → Seg code .nonWordB a (a + 1)
+  | star {x : Re} {a m : Nat} {g : Bool} : (u8 code a = OP_SPLIT_A ∨ u8 code a = OP_SPLIT_B) → addOff a (i16 code (a + 2)) = m + 3 →
+      Seg code x (a + 4) m → u8 code m = OP_JUMP → addOff m (i16 code (m + 1)) = a → Seg code (.star x g) a (m + 3)
+  | plus {x : Re} {a m : Nat} {g : Bool} : Seg code x a m → (u8 code m = OP_SPLIT_A ∨ u8 code m = OP_SPLIT_B) →
+      addOff m (i16 code (m + 2)) = a → Seg code (.plus x g) a (m + 4)
   | cat {x y : Re} {a m b : Nat} : Seg code x a m → Seg code y m b → Seg code (.cat x y) a b
   | alt {x y : Re} {a m b : Nat} : u8 code a = OP_SPLIT_A → addOff a (i16 code (a + 2)) = m + 3 → Seg code x (a + 4) m →
       u8 code m = OP_JUMP → addOff m (i16 code (m + 1)) = b → Seg code y (m + 3) b → Seg code (.alt x y) a b
@@ -71,12 +80,16 @@ inductive Seg (code : Code) : Re → Nat → Nat → Prop
 theorem Seg.len {code : Code} {r : Re} {a b : Nat} (h : Seg code r a b) : b = a + clen r := by
   induction h with
   | lit _ _ | notLit _ _ | masked _ _ _ | maskedNot _ _ _ | any _ | jump _ _ _ _ | wordCh _ | nonWordCh _ | space _ | nonSpace _ | digit _ | nonDigit _ | bol _ | eol _ | wordB _ | nonWordB _ => simp [clen]
+  | star _ _ _ _ _ ih => simp only [clen]; omega
+  | plus _ _ _ ih => simp only [clen]; omega
   | cat _ _ ih1 ih2 => simp only [clen]; omega
   | alt _ _ _ _ _ _ ih1 ih2 => simp only [clen]; omega
 
 theorem Seg.pos {code : Code} {r : Re} {a b : Nat} (h : Seg code r a b) : a < b := by
   induction h with
   | lit _ _ | notLit _ _ | masked _ _ _ | maskedNot _ _ _ | any _ | jump _ _ _ _ | wordCh _ | nonWordCh _ | space _ | nonSpace _ | digit _ | nonDigit _ | bol _ | eol _ | wordB _ | nonWordB _ => omega
+  | star _ _ _ _ _ ih => omega
+  | plus _ _ _ ih => omega
   | cat _ _ ih1 ih2 => omega
   | alt _ _ _ _ _ _ ih1 ih2 => omega
 
@@ -98,6 +111,17 @@ def lang (fl : Flags) (buf : Bytes) : Re → Nat → Lang → Nat → Int → Mo
       else if ip < mid then lang fl buf x (a + 4) K ip rc m
       else if ip = mid then K
       else lang fl buf y (mid + 3) K ip rc m
+  | .star x g, a, K, ip, rc, m =>
+      let mid := a + 4 + clen x
+      if ip = a then fun q q' => ∃ t, Re.Matches fl buf (.star x g) q t ∧ K t q'
+      else if ip < mid then lang fl buf x (a + 4) (fun q q' => ∃ t, Re.Matches fl buf (.star x g) q t ∧ K t q') ip rc m
+      else if ip = mid then fun q q' => ∃ t, Re.Matches fl buf (.star x g) q t ∧ K t q'
+      else K
+  | .plus x g, a, K, ip, rc, m =>
+      let mid := a + clen x
+      if ip < mid then lang fl buf x a (fun q q' => K q q' ∨ ∃ t, Re.Matches fl buf (.plus x g) q t ∧ K t q') ip rc m
+      else if ip = mid then fun q q' => K q q' ∨ ∃ t, Re.Matches fl buf (.plus x g) q t ∧ K t q'
+      else K
   | .rangeAny lo hi _, a, K, ip, rc, m =>
       if ip = a then
         match m with
@@ -120,6 +144,19 @@ theorem lang_entry {code : Code} {r : Re} {a b : Nat} (hs : Seg code r a b) (K :
     obtain ⟨j, t, h1, h2, hp, hk⟩ := h
     simp only [rc0, if_true, Nat.zero_add] at h1 h2
     exact ⟨t, rangeAny_of_path j lo hi q t h1 h2 hp, hk⟩
+  | @star x a m g _ _ h1 _ _ ih =>
+    intro h
+    simp only [lang, if_true] at h
+    exact h
+  | @plus x a m g h1 _ _ ih =>
+    intro h
+    have hm : m = a + clen x := h1.len
+    have hlt : a < a + clen x := by have := h1.pos; omega
+    simp only [lang, hlt, if_true] at h
+    obtain ⟨t, ht, hk⟩ := ih _ _ _ h
+    rcases hk with hk | ⟨t2, ht2, hk2⟩
+    · exact ⟨t, .plusOne ht, hk⟩
+    · exact ⟨t2, .plusStep ht ht2, hk2⟩
   | @cat x y a m b h1 h2 ih1 ih2 =>
     intro h
     have hm : m = a + clen x := h1.len
@@ -145,6 +182,18 @@ theorem lang_end {code : Code} {r : Re} {a b : Nat} (hs : Seg code r a b) (K : L
     lang fl buf r a K b rc md = K := by
   induction hs generalizing K with
   | lit _ _ | notLit _ _ | masked _ _ _ | maskedNot _ _ _ | any _ | jump _ _ _ _ | wordCh _ | nonWordCh _ | space _ | nonSpace _ | digit _ | nonDigit _ | bol _ | eol _ | wordB _ | nonWordB _ => simp [lang]
+  | @star x a m g _ _ h1 _ _ ih =>
+    have hm : m = a + 4 + clen x := by have := h1.len; omega
+    have p1 := h1.pos
+    have c1 : ¬ m + 3 = a := by omega
+    have c2 : ¬ m + 3 < a + 4 + clen x := by omega
+    have c3 : ¬ m + 3 = a + 4 + clen x := by omega
+    simp only [lang, c1, c2, c3, if_false]
+  | @plus x a m g h1 _ _ ih =>
+    have hm : m = a + clen x := h1.len
+    have c2 : ¬ m + 4 < a + clen x := by omega
+    have c3 : ¬ m + 4 = a + clen x := by omega
+    simp only [lang, c2, c3, if_false]
   | @cat x y a m b h1 h2 ih1 ih2 =>
     have hm : m = a + clen x := h1.len
     have : ¬ b < a + clen x := by have := h2.pos; omega
@@ -206,6 +255,8 @@ def Valid : Re → Nat → Nat → Int → Mode → Prop
   | .cat x y, a, ip, rc, m => Valid x a ip rc m ∨ Valid y (a + clen x) ip rc m
   | .alt x y, a, ip, rc, m => (ip = a ∧ rc = -1 ∧ m = .run) ∨ Valid x (a + 4) ip rc m ∨
       (ip = a + 4 + clen x ∧ rc = -1 ∧ m = .run) ∨ Valid y (a + 4 + clen x + 3) ip rc m
+  | .star x _, a, ip, rc, m => (ip = a ∧ rc = -1 ∧ m = .run) ∨ Valid x (a + 4) ip rc m ∨ (ip = a + 4 + clen x ∧ rc = -1 ∧ m = .run)
+  | .plus x _, a, ip, rc, m => Valid x a ip rc m ∨ (ip = a + clen x ∧ rc = -1 ∧ m = .run)
   | .rangeAny _ hi _, a, ip, rc, m => ip = a ∧ ((m = .run ∧ rc = -1) ∨ (m ≠ .run ∧ 1 ≤ rc ∧ rc ≤ hi))
   | _, a, ip, rc, m => ip = a ∧ rc = -1 ∧ m = .run
 
@@ -213,6 +264,23 @@ theorem valid_range {code : Code} {r : Re} {a b : Nat} (hs : Seg code r a b) {ip
     (h : Valid r a ip rc m) : a ≤ ip ∧ ip < b := by
   induction hs generalizing ip with
   | lit _ _ | notLit _ _ | masked _ _ _ | maskedNot _ _ _ | any _ | jump _ _ _ _ | wordCh _ | nonWordCh _ | space _ | nonSpace _ | digit _ | nonDigit _ | bol _ | eol _ | wordB _ | nonWordB _ => simp only [Valid] at h; omega
+  | @star x a m g _ _ h1 _ _ ih =>
+    have hm : m = a + 4 + clen x := by have := h1.len; omega
+    have p1 := h1.pos
+    simp only [Valid] at h
+    rw [← hm] at h
+    rcases h with h | h | h
+    · omega
+    · have := ih h; omega
+    · omega
+  | @plus x a m g h1 _ _ ih =>
+    have hm : m = a + clen x := h1.len
+    have p1 := h1.pos
+    simp only [Valid] at h
+    rw [← hm] at h
+    rcases h with h | h
+    · have := ih h; omega
+    · omega
   | @cat x y a m b h1 h2 ih1 ih2 =>
     have hm : m = a + clen x := h1.len
     have p1 := h1.pos; have p2 := h2.pos
@@ -235,6 +303,8 @@ theorem valid_first {code : Code} {r : Re} {a b : Nat} (hs : Seg code r a b) : V
   induction hs with
   | lit _ _ | notLit _ _ | masked _ _ _ | maskedNot _ _ _ | any _ | wordCh _ | nonWordCh _ | space _ | nonSpace _ | digit _ | nonDigit _ | bol _ | eol _ | wordB _ | nonWordB _ => simp [Valid]
   | jump _ _ _ _ => simp [Valid]
+  | star _ _ _ _ _ _ => exact .inl ⟨rfl, rfl, rfl⟩
+  | plus _ _ _ ih => exact .inl ih
   | cat _ _ ih1 _ => exact .inl ih1
   | alt _ _ _ _ _ _ _ _ => exact .inl ⟨rfl, rfl, rfl⟩
 
@@ -811,6 +881,193 @@ theorem seg_step (e : Env) (h : FwdByte e) {r : Re} {a b : Nat} (hs : Seg e.code
   | @jump a lo hi g h1 h2 h3 h4 =>
     intro K f md hst
     exact jump_step e h a lo hi g K f md h1 h2 h3 h4 hst
+  | @star x a m g o1 o2 s1 o3 o4 ih =>
+    intro K f md hst
+    have hm : m = a + 4 + clen x := by have := s1.len; omega
+    have p1 := s1.pos
+    simp only [Valid] at hst
+    rw [← hm] at hst
+    -- the language at the loop head
+    obtain ⟨SK, hSK⟩ : ∃ SK : Lang, SK = fun q q' => ∃ t, Re.Matches (specFlags e.fl) e.buf (.star x g) q t ∧ K t q' := ⟨_, rfl⟩
+    have hla : ∀ rc md, lang (specFlags e.fl) e.buf (.star x g) a K a rc md = SK := by
+      intro rc md; simp only [lang, if_true]; rw [hSK]
+    have hlx : ∀ ip rc md, a < ip → ip < m → lang (specFlags e.fl) e.buf (.star x g) a K ip rc md = lang (specFlags e.fl) e.buf x (a + 4) SK ip rc md := by
+      intro ip rc md h1 h2; simp only [lang]; rw [← hm, if_neg (by omega), if_pos h2, hSK]
+    have hlm : ∀ rc md, lang (specFlags e.fl) e.buf (.star x g) a K m rc md = SK := by
+      intro rc md; simp only [lang]; rw [← hm, if_neg (by omega), if_neg (by omega), if_pos rfl, hSK]
+    have hlb : ∀ rc md, lang (specFlags e.fl) e.buf (.star x g) a K (m + 3) rc md = K := fun rc md =>
+      lang_end _ _ (Seg.star (g := g) o1 o2 s1 o3 o4) K rc md
+    have hxm : ∀ rc md, lang (specFlags e.fl) e.buf x (a + 4) SK m rc md = SK := fun rc md => lang_end _ _ s1 _ rc md
+    have liftx : ∀ (g' : Fiber) (md' : Mode), (Valid x (a + 4) g'.ip g'.rc md' ∨ AtEnd m g' md') →
+        (Valid (.star x g) a g'.ip g'.rc md' ∨ AtEnd (m + 3) g' md') ∧
+        lang (specFlags e.fl) e.buf (.star x g) a K g'.ip g'.rc md' = lang (specFlags e.fl) e.buf x (a + 4) SK g'.ip g'.rc md' := by
+      intro g' md' hg
+      rcases hg with h1 | ⟨h1, h2, h3⟩
+      · have r := valid_range s1 h1
+        exact ⟨.inl (.inr (.inl h1)), hlx _ _ _ (by omega) r.2⟩
+      · subst h3
+        exact ⟨.inl (.inr (.inr ⟨by rw [h1, hm], h2, rfl⟩)), by rw [h1, hlm, hxm]⟩
+    rcases hst with hst | hst | hst
+    · -- the split at the loop head
+      obtain ⟨hip, hrc, hmd⟩ := hst
+      have hop : u8 e.code f.ip = OP_SPLIT_A ∨ u8 e.code f.ip = OP_SPLIT_B := by rw [hip]; exact o1
+      have hnany : ¬ (u8 e.code f.ip = OP_REPEAT_ANY_GREEDY ∨ u8 e.code f.ip = OP_REPEAT_ANY_UNGREEDY) := by
+        rcases hop with h1 | h1 <;> rw [h1] <;> decide
+      refine ⟨?_, ?_, ?_, by rcases hop with h1 | h1 <;> rw [h1] <;> decide, fun bm _ _ hz => by
+        rw [zw_split_false e bm (by rcases hop with h1 | h1; exact .inl h1; exact .inr (.inl h1))] at hz; simp at hz⟩
+      · intro g' hg _
+        rcases estep_split hg hop with rfl | rfl
+        · obtain ⟨l1, l2⟩ := liftx { f with ip := f.ip + 4 } .run (.inl (by simp only; rw [hip, hrc]; exact valid_first s1))
+          refine ⟨l1, ?_⟩
+          intro q q' hq
+          rw [hip, hla]; rw [l2] at hq
+          simp only at hq
+          rw [hip, hrc] at hq
+          obtain ⟨t, ht, hk⟩ := lang_entry _ _ s1 SK _ _ hq
+          rw [hSK] at hk ⊢
+          obtain ⟨t2, ht2, hk2⟩ := hk
+          exact ⟨t2, .starStep ht ht2, hk2⟩
+        · refine ⟨.inr ⟨by simp only; rw [hip, o2], hrc, rfl⟩, ?_⟩
+          intro q q' hq
+          simp only at hq
+          rw [hip, o2, hlb] at hq
+          rw [hip, hla, hSK]
+          exact ⟨q, .starNil, hq⟩
+      · intro g' stop hg _
+        exact absurd hg (fun hh => no_astep hh hnany)
+      · intro bm hc
+        rcases hop with h1 | h1 <;> rw [h1] at hc <;> simp [isConsuming, OP_SPLIT_A, OP_SPLIT_B, OP_JUMP, OP_ANY, OP_REPEAT_ANY_GREEDY, OP_REPEAT_ANY_UNGREEDY, OP_LITERAL, OP_NOT_LITERAL, OP_MASKED_LITERAL,
+          OP_MASKED_NOT_LITERAL, OP_CLASS, OP_WORD_CHAR, OP_NON_WORD_CHAR, OP_SPACE, OP_NON_SPACE, OP_DIGIT, OP_NON_DIGIT] at hc
+    · have r := valid_range s1 hst
+      obtain ⟨e1, e2, e3, e4, e5⟩ := ih SK f md hst
+      refine ⟨?_, ?_, ?_, e4, ?_⟩
+      · intro g' hg hmw
+        obtain ⟨g1, g2⟩ := e1 g' hg hmw
+        obtain ⟨l1, l2⟩ := liftx g' .run g1
+        refine ⟨l1, ?_⟩
+        intro q q' hq
+        rw [hlx _ _ _ (by omega) r.2]; rw [l2] at hq; exact g2 q q' hq
+      · intro g' stop hg hmw
+        obtain ⟨g1, g2⟩ := e2 g' stop hg hmw
+        obtain ⟨l1, l2⟩ := liftx g' _ g1
+        refine ⟨l1, ?_⟩
+        intro q q' hq
+        rw [hlx _ _ _ (by omega) r.2]; rw [l2] at hq; exact g2 q q' hq
+      · intro bm hc1 hc2 hc3 hc4
+        obtain ⟨g1, g2⟩ := e3 bm hc1 hc2 hc3 hc4
+        obtain ⟨l1, l2⟩ := liftx _ _ g1
+        refine ⟨l1, ?_⟩
+        intro q' hq
+        rw [hlx _ _ _ (by omega) r.2]; rw [l2] at hq; exact g2 q' hq
+      · intro bm hz0 hz1 hz2
+        obtain ⟨g1, g2⟩ := e5 bm hz0 hz1 hz2
+        obtain ⟨l1, l2⟩ := liftx { f with ip := f.ip + 1 } .run g1
+        refine ⟨l1, ?_⟩
+        intro q' hq
+        rw [hlx _ _ _ (by omega) r.2]; rw [l2] at hq; exact g2 q' hq
+    · -- the jump back to the loop head
+      obtain ⟨hip, hrc, hmd⟩ := hst
+      have hop : u8 e.code f.ip = OP_JUMP := by rw [hip]; exact o3
+      have hnany : ¬ (u8 e.code f.ip = OP_REPEAT_ANY_GREEDY ∨ u8 e.code f.ip = OP_REPEAT_ANY_UNGREEDY) := by
+        rw [hop]; decide
+      refine ⟨?_, ?_, ?_, by rw [hop]; decide, fun bm _ _ hz => by rw [hop, zw_split_false e bm (.inr (.inr rfl))] at hz; simp at hz⟩
+      · intro g' hg _
+        rw [estep_jump hg hop]
+        refine ⟨.inl (.inl ⟨by simp only; rw [hip, o4], hrc, rfl⟩), ?_⟩
+        intro q q' hq
+        simp only at hq
+        rw [hip, o4, hla] at hq
+        rw [hip, hlm]; exact hq
+      · intro g' stop hg _
+        exact absurd hg (fun hh => no_astep hh hnany)
+      · intro bm hc
+        rw [hop] at hc
+        simp [isConsuming, OP_SPLIT_A, OP_SPLIT_B, OP_JUMP, OP_ANY, OP_REPEAT_ANY_GREEDY, OP_REPEAT_ANY_UNGREEDY, OP_LITERAL, OP_NOT_LITERAL, OP_MASKED_LITERAL,
+          OP_MASKED_NOT_LITERAL, OP_CLASS, OP_WORD_CHAR, OP_NON_WORD_CHAR, OP_SPACE, OP_NON_SPACE, OP_DIGIT, OP_NON_DIGIT] at hc
+  | @plus x a m g s1 o1 o2 ih =>
+    intro K f md hst
+    have hm : m = a + clen x := s1.len
+    have p1 := s1.pos
+    simp only [Valid] at hst
+    rw [← hm] at hst
+    obtain ⟨PK, hPK⟩ : ∃ PK : Lang, PK = fun q q' => K q q' ∨ ∃ t, Re.Matches (specFlags e.fl) e.buf (.plus x g) q t ∧ K t q' := ⟨_, rfl⟩
+    have hlx : ∀ ip rc md, ip < m → lang (specFlags e.fl) e.buf (.plus x g) a K ip rc md = lang (specFlags e.fl) e.buf x a PK ip rc md := by
+      intro ip rc md h2; simp only [lang]; rw [← hm, if_pos h2, hPK]
+    have hlm : ∀ rc md, lang (specFlags e.fl) e.buf (.plus x g) a K m rc md = PK := by
+      intro rc md; simp only [lang]; rw [← hm, if_neg (by omega), if_pos rfl, hPK]
+    have hlb : ∀ rc md, lang (specFlags e.fl) e.buf (.plus x g) a K (m + 4) rc md = K := fun rc md =>
+      lang_end _ _ (Seg.plus (g := g) s1 o1 o2) K rc md
+    have hxm : ∀ rc md, lang (specFlags e.fl) e.buf x a PK m rc md = PK := fun rc md => lang_end _ _ s1 _ rc md
+    have liftx : ∀ (g' : Fiber) (md' : Mode), (Valid x a g'.ip g'.rc md' ∨ AtEnd m g' md') →
+        (Valid (.plus x g) a g'.ip g'.rc md' ∨ AtEnd (m + 4) g' md') ∧
+        lang (specFlags e.fl) e.buf (.plus x g) a K g'.ip g'.rc md' = lang (specFlags e.fl) e.buf x a PK g'.ip g'.rc md' := by
+      intro g' md' hg
+      rcases hg with h1 | ⟨h1, h2, h3⟩
+      · have r := valid_range s1 h1
+        exact ⟨.inl (.inl h1), hlx _ _ _ r.2⟩
+      · subst h3
+        exact ⟨.inl (.inr ⟨by rw [h1, hm], h2, rfl⟩), by rw [h1, hlm, hxm]⟩
+    rcases hst with hst | hst
+    · have r := valid_range s1 hst
+      obtain ⟨e1, e2, e3, e4, e5⟩ := ih PK f md hst
+      refine ⟨?_, ?_, ?_, e4, ?_⟩
+      · intro g' hg hmw
+        obtain ⟨g1, g2⟩ := e1 g' hg hmw
+        obtain ⟨l1, l2⟩ := liftx g' .run g1
+        refine ⟨l1, ?_⟩
+        intro q q' hq
+        rw [hlx _ _ _ r.2]; rw [l2] at hq; exact g2 q q' hq
+      · intro g' stop hg hmw
+        obtain ⟨g1, g2⟩ := e2 g' stop hg hmw
+        obtain ⟨l1, l2⟩ := liftx g' _ g1
+        refine ⟨l1, ?_⟩
+        intro q q' hq
+        rw [hlx _ _ _ r.2]; rw [l2] at hq; exact g2 q q' hq
+      · intro bm hc1 hc2 hc3 hc4
+        obtain ⟨g1, g2⟩ := e3 bm hc1 hc2 hc3 hc4
+        obtain ⟨l1, l2⟩ := liftx _ _ g1
+        refine ⟨l1, ?_⟩
+        intro q' hq
+        rw [hlx _ _ _ r.2]; rw [l2] at hq; exact g2 q' hq
+      · intro bm hz0 hz1 hz2
+        obtain ⟨g1, g2⟩ := e5 bm hz0 hz1 hz2
+        obtain ⟨l1, l2⟩ := liftx { f with ip := f.ip + 1 } .run g1
+        refine ⟨l1, ?_⟩
+        intro q' hq
+        rw [hlx _ _ _ r.2]; rw [l2] at hq; exact g2 q' hq
+    · -- the split after the body
+      obtain ⟨hip, hrc, hmd⟩ := hst
+      have hop : u8 e.code f.ip = OP_SPLIT_A ∨ u8 e.code f.ip = OP_SPLIT_B := by rw [hip]; exact o1
+      have hnany : ¬ (u8 e.code f.ip = OP_REPEAT_ANY_GREEDY ∨ u8 e.code f.ip = OP_REPEAT_ANY_UNGREEDY) := by
+        rcases hop with h1 | h1 <;> rw [h1] <;> decide
+      refine ⟨?_, ?_, ?_, by rcases hop with h1 | h1 <;> rw [h1] <;> decide, fun bm _ _ hz => by
+        rw [zw_split_false e bm (by rcases hop with h1 | h1; exact .inl h1; exact .inr (.inl h1))] at hz; simp at hz⟩
+      · intro g' hg _
+        rcases estep_split hg hop with rfl | rfl
+        · refine ⟨.inr ⟨by simp only; rw [hip], hrc, rfl⟩, ?_⟩
+          intro q q' hq
+          simp only at hq
+          rw [hip, hlb] at hq
+          rw [hip, hlm, hPK]
+          exact .inl hq
+        · obtain ⟨l1, l2⟩ := liftx { f with ip := addOff f.ip (i16 e.code (f.ip + 2)) } .run
+            (.inl (by simp only; rw [hip, o2, hrc]; exact valid_first s1))
+          refine ⟨l1, ?_⟩
+          intro q q' hq
+          rw [l2] at hq
+          simp only at hq
+          rw [hip, o2, hrc] at hq
+          obtain ⟨t, ht, hk⟩ := lang_entry _ _ s1 PK _ _ hq
+          rw [hip, hlm]
+          rw [hPK] at hk ⊢
+          rcases hk with hk | ⟨t2, ht2, hk2⟩
+          · exact .inr ⟨t, .plusOne ht, hk⟩
+          · exact .inr ⟨t2, .plusStep ht ht2, hk2⟩
+      · intro g' stop hg _
+        exact absurd hg (fun hh => no_astep hh hnany)
+      · intro bm hc
+        rcases hop with h1 | h1 <;> rw [h1] at hc <;> simp [isConsuming, OP_SPLIT_A, OP_SPLIT_B, OP_JUMP, OP_ANY, OP_REPEAT_ANY_GREEDY, OP_REPEAT_ANY_UNGREEDY, OP_LITERAL, OP_NOT_LITERAL, OP_MASKED_LITERAL,
+          OP_MASKED_NOT_LITERAL, OP_CLASS, OP_WORD_CHAR, OP_NON_WORD_CHAR, OP_SPACE, OP_NON_SPACE, OP_DIGIT, OP_NON_DIGIT] at hc
   | @cat x y a m b s1 s2 ih1 ih2 =>
     intro K f md hst
     have hm : m = a + clen x := s1.len
@@ -1053,6 +1310,17 @@ theorem valid_run {code : Code} {r : Re} {a b : Nat} (hs : Seg code r a b) {ip :
   induction hs generalizing ip with
   | lit _ _ | notLit _ _ | masked _ _ _ | maskedNot _ _ _ | any _ | wordCh _ | nonWordCh _ | space _ | nonSpace _ | digit _ | nonDigit _ | bol _ | eol _ | wordB _ | nonWordB _ => simp only [Valid] at hv; exact hv.2.2
   | jump h1 _ _ _ => simp only [Valid] at hv; rw [hv.1] at hn; exact absurd h1 hn
+  | @star x a m' g _ _ h1 _ _ ih =>
+    simp only [Valid] at hv
+    rcases hv with hv | hv | hv
+    · exact hv.2.2
+    · exact ih hv hn
+    · exact hv.2.2
+  | @plus x a m' g h1 _ _ ih =>
+    simp only [Valid] at hv
+    rcases hv with hv | hv
+    · exact ih hv hn
+    · exact hv.2.2
   | @cat x y a m' b h1 h2 ih1 ih2 =>
     have hm : m' = a + clen x := h1.len
     simp only [Valid] at hv
@@ -1186,10 +1454,18 @@ theorem sub_whole (bs : List UInt8) : Sub bs.toArray 0 bs := by
   intro i _
   simp [u8]
 
-theorem emit_len {r : Re} (hf : HexFrag r) : ∀ s, (emit false r s).1.length = clen r := by
+theorem emit_len {r : Re} (hf : Frag r) : ∀ s, (emit false r s).1.length = clen r := by
   induction hf with
   | lit _ | masked _ _ | notLit _ | maskedNot _ _ | any | wordCh | nonWordCh | space | nonSpace | digit | nonDigit | bol | eol | wordB | nonWordB => intro s; simp [emit, clen]
   | jump _ _ _ _ _ => intro s; simp [emit, clen, le16]
+  | star g _ ih =>
+    intro s
+    simp only [emit, clen, List.length_append, List.length_cons, List.length_nil, leI16, le16]
+    rw [ih]
+  | plus g _ ih =>
+    intro s
+    simp only [emit, clen, List.length_append, List.length_cons, List.length_nil, leI16, le16]
+    rw [ih]
   | cat _ _ ih1 ih2 =>
     intro s
     simp only [emit, Bool.false_eq_true, if_false, clen, List.length_append]
@@ -1223,7 +1499,27 @@ theorem sub_leI16 {code : Code} {a n : Nat} (hn : n < 32768) (h : Sub code a (le
   · rw [h0]; simp
   · rw [h1]; simp
 
-theorem seg_of_emit {r : Re} (hf : HexFrag r) : ∀ (s : Nat) (code : Code) (a : Nat), clen r < 32000 →
+theorem sub_leI16_neg {code : Code} {a n : Nat} (hn : 0 < n) (hn2 : n ≤ 32768) (h : Sub code a (leI16 (-(n : Int)))) :
+    i16 code a = -(n : Int) := by
+  have e : leI16 (-(n : Int)) = [UInt8.ofNat ((65536 - n) % 256), UInt8.ofNat ((65536 - n) / 256 % 256)] := by
+    unfold leI16 le16
+    have : ((-(n : Int)) % 65536).toNat = 65536 - n := by omega
+    rw [this]
+  rw [e] at h
+  have h0 := h 0 (by simp)
+  have h1 := h 1 (by simp)
+  simp only [Nat.add_zero, List.getElem?_cons_zero, Option.getD_some, List.getElem?_cons_succ] at h0 h1
+  have t0 : (UInt8.ofNat ((65536 - n) % 256)).toNat = (65536 - n) % 256 := by simp
+  have t1 : (UInt8.ofNat ((65536 - n) / 256 % 256)).toNat = (65536 - n) / 256 % 256 := by simp
+  unfold i16 u16
+  rw [h0, h1, t0, t1]
+  have e3 : (65536 - n) % 256 + 256 * ((65536 - n) / 256 % 256) = 65536 - n := by omega
+  rw [e3]
+  have : 65536 - n ≥ 32768 := by omega
+  simp only [this, if_true]
+  omega
+
+theorem seg_of_emit {r : Re} (hf : Frag r) : ∀ (s : Nat) (code : Code) (a : Nat), clen r < 32000 →
     Sub code a (emit false r s).1 → Seg code r a (a + clen r) := by
   induction hf with
   | lit b =>
@@ -1330,6 +1626,68 @@ theorem seg_of_emit {r : Re} (hf : HexFrag r) : ∀ (s : Nat) (code : Code) (a :
     · rw [h0]; cases g <;> simp [OP_REPEAT_ANY_GREEDY, OP_REPEAT_ANY_UNGREEDY]
     · unfold u16; rw [e2, h1, h2]; omega
     · unfold u16; rw [e4, h3, h4]; omega
+  | @star x g hx ih =>
+    intro s code a hsz h
+    simp only [clen] at hsz ⊢
+    simp only [emit] at h
+    -- [op, id] ++ off16 ++ ca ++ [C2] ++ off16'
+    obtain ⟨h1234, hoff2⟩ := sub_append h
+    obtain ⟨h123, hjmp⟩ := sub_append h1234
+    obtain ⟨h12, hca⟩ := sub_append h123
+    obtain ⟨hhead, hoff1⟩ := sub_append h12
+    simp only [List.length_append, List.length_cons, List.length_nil, leI16_length, emit_len hx] at hoff2 hjmp hca hoff1
+    have hop : u8 code a = OP_SPLIT_A ∨ u8 code a = OP_SPLIT_B := by
+      have := hhead 0 (by simp); simp at this
+      cases g
+      · right; rw [this]; rfl
+      · left; rw [this]; rfl
+    have hj : u8 code (a + 4 + clen x) = OP_JUMP := by
+      have := hjmp 0 (by simp)
+      simp at this
+      have e1 : a + (0 + 1 + 1 + (0 + 1 + 1) + clen x) = a + 4 + clen x := by omega
+      rw [e1] at this; rw [this]; rfl
+    have ho1 : i16 code (a + 2) = ((4 + clen x + 3 : Nat) : Int) := by
+      apply sub_leI16 (by omega)
+      have e1 : a + (0 + 1 + 1) = a + 2 := by omega
+      rw [e1] at hoff1
+      have e2 : ((4 + clen x + 3 : Nat) : Int) = 4 + (clen x : Int) + 3 := by omega
+      rw [e2]; exact hoff1
+    have ho2 : i16 code (a + 4 + clen x + 1) = -((4 + clen x : Nat) : Int) := by
+      apply sub_leI16_neg (by omega) (by omega)
+      have e1 : a + (0 + 1 + 1 + (0 + 1 + 1) + clen x + (0 + 1)) = a + 4 + clen x + 1 := by omega
+      rw [e1] at hoff2
+      exact hoff2
+    have sx : Seg code x (a + 4) (a + 4 + clen x) := by
+      apply ih (s + 1) code (a + 4) (by omega)
+      have e1 : a + (0 + 1 + 1 + (0 + 1 + 1)) = a + 4 := by omega
+      rw [e1] at hca; exact hca
+    have := Seg.star (code := code) (x := x) (a := a) (m := a + 4 + clen x) (g := g) hop
+      (by rw [ho1]; unfold addOff; omega) sx hj (by rw [ho2]; unfold addOff; omega)
+    have e3 : a + (4 + clen x + 3) = a + 4 + clen x + 3 := by omega
+    rw [e3]; exact this
+  | @plus x g hx ih =>
+    intro s code a hsz h
+    simp only [clen] at hsz ⊢
+    simp only [emit] at h
+    -- ca ++ [op, id] ++ off16
+    obtain ⟨h12, hoff⟩ := sub_append h
+    obtain ⟨hca, hhead⟩ := sub_append h12
+    simp only [List.length_append, List.length_cons, List.length_nil, emit_len hx] at hoff hhead
+    have sx : Seg code x a (a + clen x) := ih s code a (by omega) hca
+    have hpos := sx.pos
+    have hop : u8 code (a + clen x) = OP_SPLIT_A ∨ u8 code (a + clen x) = OP_SPLIT_B := by
+      have := hhead 0 (by simp); simp at this
+      cases g
+      · left; rw [this]; rfl
+      · right; rw [this]; rfl
+    have ho : i16 code (a + clen x + 2) = -((clen x : Nat) : Int) := by
+      apply sub_leI16_neg (by omega) (by omega)
+      have e1 : a + (clen x + (0 + 1 + 1)) = a + clen x + 2 := by omega
+      rw [e1] at hoff
+      exact hoff
+    have := Seg.plus (code := code) (x := x) (a := a) (m := a + clen x) (g := g) sx hop (by rw [ho]; unfold addOff; omega)
+    have e3 : a + (clen x + 4) = a + clen x + 4 := by omega
+    rw [e3]; exact this
   | @cat x y hx hy ih1 ih2 =>
     intro s code a hsz h
     simp only [clen] at hsz ⊢
@@ -1382,9 +1740,9 @@ theorem seg_of_emit {r : Re} (hf : HexFrag r) : ∀ (s : Nat) (code : Code) (a :
     rw [e3]; exact this
 
 
-/-- soundness of the VM on the code emitted for a jump-free hex pattern (byte mode, forwards, any nocase / dot-all flags,
-    exhaustive or not): every reported length is a match length of the pattern at the start position -/
-theorem vm_sound_hex (r : Re) (hf : HexFrag r) (hsz : clen r < 32000) (buf : Bytes) (start : Nat) (hst : start ≤ buf.size)
+/-- soundness of the VM on the code emitted for an expression of the fragment (byte mode, forwards, any nocase / dot-all
+    flags, exhaustive or not): every reported length is a match length of the expression at the start position -/
+theorem vm_sound_frag (r : Re) (hf : Frag r) (hsz : clen r < 32000) (buf : Bytes) (start : Nat) (hst : start ≤ buf.size)
     (fl : VmFlags) (hw : fl.wide = false) (hb : fl.backwards = false) (hsc : fl.scan = false) (fuel : Nat) (m : Int) (c : List Nat)
     (h : exec { code := (emitCode false r).toArray, entry := 0, buf := buf, start := start, fl := fl, syncFuel := fuel } = .done m c) :
     (∀ L, L ∈ c → Re.Matches (specFlags fl) buf r start (start + L)) ∧
